@@ -294,6 +294,46 @@ pub fn check_build_in_scale(rep: &mut Rep, jde: bool, x: f64, s: TimeScale) {
     }
 }
 
+/// JDE constructors of the two dynamical scales: the epoch denotes (x - 2451545.0) days past J2000 noon in ET / TDB,
+/// and reading the same view back returns x to float precision. The time-scale tag of the result is not fixed by the
+/// statement (the instant is compared through the model, 30 ns of C07 tolerance included).
+pub fn check_build_dyn(rep: &mut Rep, w: &World, x: f64, dy: TimeScale) {
+    if !rep.tick() {
+        return;
+    }
+    rep.class("build/jde");
+    rep.class("build/jde-dynamical");
+    rep.nt(h64(&[5, x.to_bits(), scale_idx(dy)]));
+    let unit = NS_D as f64;
+    let want = ((x - 2_451_545.0) * unit) as i128; // reading in dy
+    let nm = if dy == TimeScale::ET { "et" } else { "tdb" };
+    rep.sample("build/jde-dynamical", || format!("from_jde_{nm}({}) => {:?} reading {}", fmt_f64(x), dy, want));
+    match guard(|| {
+        let e = if dy == TimeScale::ET { Epoch::from_jde_et(x) } else { Epoch::from_jde_tdb(x) };
+        let back = if dy == TimeScale::ET { e.to_jde_et_days() } else { e.to_jde_tdb_days() };
+        (e, back)
+    }) {
+        Err(p) => rep.fail(&format!("build-dyn/panic/{}", p.class()), None, || format!("from_jde_{nm}({}) panicked: {} at {}", fmt_f64(x), p.msg, p.loc)),
+        Ok((e, back)) => {
+            let mag = x.abs().max((x - 2_451_545.0).abs()).max(1e9 / unit);
+            let tol = 8.0 * flt::ulp(mag) + 31.0 / unit;
+            if !((back - x).abs() <= tol) {
+                rep.fail(&format!("build/read-back/jde_{nm}"), None, || format!("from_jde_{nm}({}) reads back {} (diff {:e} days = {:.0} ns, tol {:e})", fmt_f64(x), fmt_f64(back), back - x, (back - x) * unit, tol));
+            }
+            // the instant: TAI count of the epoch vs TAI count of the denoted reading
+            let t_got = w.to_tai(count_d(e.duration), e.time_scale);
+            let t_want = w.to_tai(want, dy);
+            let tol_ns = (tol * unit).ceil() as i128 + 62;
+            if (t_got - t_want).abs() > tol_ns {
+                rep.fail(&format!("build/value/jde_{nm}"), None, || format!("from_jde_{nm}({}) = ({}, {:?}) denotes TAI {} ; (x - 2451545.0) d past J2000 {:?} is TAI {} [off by {} ns, tol {}]", fmt_f64(x), count_d(e.duration), e.time_scale, t_got, dy, t_want, t_got - t_want, tol_ns));
+            }
+        }
+    }
+}
+
+/// zero-like and tiny finite inputs (inside the span: JD 0 is -4712) for every float constructor
+pub const SPECIAL_INPUTS: [f64; 8] = [0.0, -0.0, f64::MIN_POSITIVE, -f64::MIN_POSITIVE, 1e-310, -1e-310, 5e-324, 1e-30];
+
 pub fn run(cfg: &Cfg, rep: &mut Rep) {
     let sh = rep.shard as usize;
     let n = NSHARDS as usize;
@@ -317,6 +357,31 @@ pub fn run(cfg: &Cfg, rep: &mut Rep) {
             if i % n == sh {
                 check_build(rep, kind, x);
             }
+        }
+    }
+    for x in SPECIAL_INPUTS {
+        i += 1;
+        if i % n != sh {
+            continue;
+        }
+        rep.class("build/zero-like-input");
+        for kind in 0..7u8 {
+            if kind <= 1 || kind >= 4 || x == 0.0 || x.abs() < 1.0 {
+                check_build(rep, kind, x);
+            }
+        }
+        for s2 in [TimeScale::TAI, TimeScale::UTC, TimeScale::TT, TimeScale::GPST, TimeScale::QZSST, TimeScale::GST, TimeScale::BDT] {
+            check_build_in_scale(rep, true, x, s2);
+            check_build_in_scale(rep, false, x, s2);
+        }
+        check_build_dyn(rep, &w, x, TimeScale::ET);
+        check_build_dyn(rep, &w, x, TimeScale::TDB);
+    }
+    for x in [2_451_545.0, 2_451_545.25, 2_451_544.5, 2_415_020.5, 2_460_000.5, 2_451_635.0, 2_451_727.0, 1e6, 0.5] {
+        i += 1;
+        if i % n == sh {
+            check_build_dyn(rep, &w, x, TimeScale::ET);
+            check_build_dyn(rep, &w, x, TimeScale::TDB);
         }
     }
     let mut r = Rng::new(cfg.seed, 0x1700 + sh as u64);
@@ -357,6 +422,9 @@ pub fn run(cfg: &Cfg, rep: &mut Rep) {
             if kind <= 3 {
                 let s2 = *r.pick(&[TimeScale::TAI, TimeScale::UTC, TimeScale::TT, TimeScale::GPST, TimeScale::QZSST, TimeScale::GST, TimeScale::BDT]);
                 check_build_in_scale(rep, kind >= 2, x, s2);
+            }
+            if kind == 2 || kind == 3 {
+                check_build_dyn(rep, &w, x, if kind == 2 { TimeScale::ET } else { TimeScale::TDB });
             }
         }
     }
